@@ -152,11 +152,21 @@ def no_inv(havoc):
     return LoopSpec(lambda I, env, k, it: {}, havoc)
 
 
-def all_loops(fi, sp, havoc_of):
+def all_loops(fi, sp, havoc_of, escapes=None):
+    """loop contracts for every for-loop of fi; `escapes` (a list) collects the loops whose body an exception leaves in an arbitrary iteration:
+    such an exception ends the loop for the remaining items, whatever handles it further out"""
     fr = Frame(fi, {})
     for n in ast.walk(fi.node):
         if isinstance(n, ast.For):
-            sp.loops[(fi.qualname, fr.loop_ordinals[id(n)])] = no_inv(havoc_of(n))
+            ls = no_inv(havoc_of(n))
+            if escapes is not None:
+                ls.on_exit = lambda kind, tag, line=n.lineno: escapes.append('%s (line %d)' % (tag, line)) if kind == 'raise' else None
+            sp.loops[(fi.qualname, fr.loop_ordinals[id(n)])] = ls
+
+
+def check_items_independent(ctx, tag, escapes):
+    """on a path that RETURNS: no exception left the body of an item loop (a failing item is skipped, the items after it are still processed)"""
+    ctx.check('C08.%s.failing_item_does_not_end_the_loop' % tag, not escapes, 'property', meta={'loops': list(escapes)})
 
 
 def h_engine_method(name):
@@ -178,7 +188,8 @@ def h_engine_method(name):
         def hv(n):
             # state each loop writes: a fresh dict / set local to the function
             return {'evaluated': lambda I_: Untracked(), 'variables': lambda I_: Untracked(), 'resolved': lambda I_: Untracked()}
-        all_loops(fi, sp, hv)
+        escapes = []
+        all_loops(fi, sp, hv, escapes)
         if name == '_evaluate_variables':
             call = lambda: I.call_function(fi, [txn, ds], {}, self_obj=eng)
         elif name == '_evaluate_let_bindings':
@@ -186,6 +197,7 @@ def h_engine_method(name):
         else:
             call = lambda: I.call_function(fi, [rule, txn, vars_, ds], {}, self_obj=eng)
         expect_raises(ctx, I, call, [], 'MerchantEngine.' + name)
+        check_items_independent(ctx, 'MerchantEngine.' + name, escapes)
     return h
 
 
